@@ -14,10 +14,10 @@ Local Open Scope Z_scope.
 
 (* ---------------- format_int / parse_int ---------------- *)
 
-(* every base 2..36, every i64 except i64::MIN: format_int succeeds (no panic, the digit loop ends within
-   its 64 rounds) and parse_int with the same base returns the number *)
+(* every base 2..36, every i64 (i64::MIN included since 12bd79c): format_int succeeds (no panic, the digit
+   loop ends within its 64 rounds) and parse_int with the same base returns the number *)
 Theorem C25_int : forall base z,
-  2 <= base <= 36 -> in_i64 z = true -> z <> i64_min ->
+  2 <= base <= 36 -> in_i64 z = true ->
   exists s, format_int (VInt z) (VInt base) = ROk (VBytes s)
             /\ parse_int (VBytes s) (Some (VInt base)) = ROk (VInt z).
 Proof. exact int_roundtrip. Qed.
@@ -26,16 +26,17 @@ Print Assumptions C25_int.
 (* both `base` arguments left out: printed in base 10, and the prefix rules of parse_int pick base 10
    (or base 8 for the text "0") *)
 Theorem C25_int_default_base : forall z,
-  in_i64 z = true -> z <> i64_min ->
+  in_i64 z = true ->
   exists s, format_int_opt (VInt z) None = ROk (VBytes s) /\ parse_int (VBytes s) None = ROk (VInt z).
 Proof. exact int_roundtrip_default. Qed.
 Print Assumptions C25_int_default_base.
 
-(* the excluded input: at i64::MIN `-x` overflows (a panic in builds with overflow checks) for every base *)
-Theorem C25_int_min_refuted : exists z, in_i64 z = true /\
-  forall base, 2 <= base <= 36 -> format_int (VInt z) (VInt base) = RPanic.
-Proof. exists i64_min. split; [reflexivity | exact format_int_min_panics]. Qed.
-Print Assumptions C25_int_min_refuted.
+(* the former refutation witness: i64::MIN, where `-x` used to overflow, now round-trips in every base *)
+Theorem C25_int_min_roundtrips : forall base, 2 <= base <= 36 ->
+  exists s, format_int (VInt i64_min) (VInt base) = ROk (VBytes s)
+            /\ parse_int (VBytes s) (Some (VInt base)) = ROk (VInt i64_min).
+Proof. exact format_int_min_roundtrips. Qed.
+Print Assumptions C25_int_min_roundtrips.
 
 (* ---------------- ip_ntoa / ip_aton ---------------- *)
 
@@ -196,8 +197,9 @@ Print Assumptions C25_timestamp_text_layouts_partial.
 
 (* ---------------- non-vacuity ---------------- *)
 Example C25_hypotheses_nonvacuous :
-  (2 <= 36 <= 36 /\ in_i64 (i64_min + 1) = true /\ i64_min + 1 <> i64_min
-   /\ format_int (VInt (i64_min + 1)) (VInt 36) = ROk (VBytes (ascii_bytes "-1y2p0ij32e8e7")))
+  (2 <= 36 <= 36 /\ in_i64 i64_min = true
+   /\ format_int (VInt i64_min) (VInt 36) = ROk (VBytes (ascii_bytes "-1y2p0ij32e8e8"))
+   /\ format_int (VInt i64_min) (VInt 10) = ROk (VBytes (ascii_bytes "-9223372036854775808")))
   /\ (octet 255 /\ octet 0 /\ ipv4_to_string [255; 0; 10; 199] = ascii_bytes "255.0.10.199")
   /\ obj_sorted [(hx "61", VInt 1); (hx "6162", VNull)] = true
   /\ (ts_in_range (-1500000000) = true
